@@ -185,7 +185,11 @@ func makeElement(g *group, class string, k *big.Int, aux int) element {
 		return element{class: fmt.Sprintf("mixed[%d]", j), pt: m.MixedOrderPoint(k, j), member: !g.prime}
 	case "tiny":
 		p, in := tinyPoint(m, uint64(1+aux%40))
-		return element{class: class, pt: p, member: in || !g.prime}
+		e := element{class: class, pt: p, member: in || !g.prime}
+		if m.IsNeutral(p) { // edwards25519: y = 1 is the identity
+			e.k = new(big.Int)
+		}
+		return e
 	case "outside":
 		return element{class: class, pt: outsidePoint(m, uint64(1+aux%24)), member: false}
 	case "cofactor":
